@@ -201,7 +201,7 @@ func (st *State) unmodelled(fr *Frame, in ssa.CallInstruction, name string, res 
 // pureExternal lists dependency functions that neither read nor write the
 // program's heap in a way that matters (assumed; listed in evidence).
 func pureExternal(name string) bool {
-	for _, p := range []string{"fmt.", "errors.", "strings.", "strconv.", "math.", "time.", "unicode.", "regexp.", "sort.", "bytes.", "encoding/", "hash/", "(*regexp.", "(time.", "(*strings.", "google.golang.org/grpc/status.", "google.golang.org/grpc/codes.", "(google.golang.org/grpc/codes.", "github.com/google/uuid.", "(github.com/google/uuid.", "google.golang.org/protobuf/types/known/", "(*google.golang.org/protobuf/types/known/", "context.", "(*context.", "invoke context.Context.", "invoke hash.", "invoke io.", "io.", "(*sync.Pool).Put", "(*sync.WaitGroup)."} {
+	for _, p := range []string{"fmt.", "errors.", "strings.", "strconv.", "math.", "time.", "unicode.", "regexp.", "sort.", "bytes.", "encoding/", "hash/", "(*regexp.", "(time.", "(*strings.", "google.golang.org/grpc/status.", "google.golang.org/grpc/codes.", "(google.golang.org/grpc/codes.", "github.com/google/uuid.", "(github.com/google/uuid.", "google.golang.org/protobuf/types/known/", "(*google.golang.org/protobuf/types/known/", "context.", "(*context.", "invoke context.Context.", "invoke hash.", "invoke io.", "io.", "(*sync.Pool).Put", "(*sync.WaitGroup).", "net/http.NewRequestWithContext", "(net/http.Header)."} {
 		if strings.HasPrefix(name, p) {
 			return true
 		}
